@@ -9,6 +9,7 @@ import (
 	"context"
 	"crypto/sha256"
 	"encoding/binary"
+	"errors"
 	"fmt"
 	"math/rand"
 	"os"
@@ -47,12 +48,16 @@ type world struct {
 	rootSeq  uint64
 	msgs     map[uint64][]*altair.SyncCommitteeMessage // clock slot -> messages submitted
 	contribs map[uint64][]*altair.SignedContributionAndProof
+	rootFail map[uint64]bool // clock slots in which the node cannot give its head root
 }
 
 func (w *world) BeaconBlockRoot(context.Context, *api.BeaconBlockRootOpts) (*api.Response[*phase0.Root], error) {
 	w.mu.Lock()
 	defer w.mu.Unlock()
 	s := uint64(w.env.Clock.CurrentSlot())
+	if w.rootFail[s] {
+		return nil, errors.New("scripted head root failure")
+	}
 	w.rootSeq++
 	var r phase0.Root
 	binary.BigEndian.PutUint64(r[:8], w.rootSeq)
@@ -98,6 +103,8 @@ type scenario struct {
 	RunSlots   uint64              `json:"slots_run"`
 	TargetAggs uint64              `json:"target_aggregators_per_sync_subcommittee"`
 	SubRefused bool                `json:"sync_subnet_subscriptions_refused,omitempty"`
+	Exited     []uint64            `json:"members_that_have_exited_but_are_still_in_the_committee,omitempty"`
+	RootFails  int                 `json:"slots_without_head_root"`
 }
 
 func firstEpochOf(p, altairEpoch uint64) uint64 {
@@ -139,7 +146,7 @@ func history(c *harness.Ctx, id string, r *rand.Rand) {
 		c.Inconclusive(err.Error())
 		return
 	}
-	w := &world{env: env, roots: map[uint64]phase0.Root{}, msgs: map[uint64][]*altair.SyncCommitteeMessage{}, contribs: map[uint64][]*altair.SignedContributionAndProof{}}
+	w := &world{env: env, roots: map[uint64]phase0.Root{}, msgs: map[uint64][]*altair.SyncCommitteeMessage{}, contribs: map[uint64][]*altair.SignedContributionAndProof{}, rootFail: map[uint64]bool{}}
 	// the usual test constants (modulo 4), or those of the minimal preset (target 16: every member aggregates)
 	r1 := rand.New(rand.NewSource(r.Int63()))
 	sc.TargetAggs = []uint64{targetAggs, targetAggs, 16}[r1.Intn(3)]
@@ -205,6 +212,20 @@ func history(c *harness.Ctx, id string, r *rand.Rand) {
 			sc.NoSig = append(sc.NoSig, v)
 		}
 	}
+	// a member that has exited (no longer validating) stays in its committee until the period ends
+	env.NotValidating = map[uint64]bool{}
+	if r1.Intn(3) == 0 {
+		v := vals[r1.Intn(len(vals))]
+		env.NotValidating[v] = true
+		sc.Exited = append(sc.Exited, v)
+	}
+	// in some slots the node cannot give its head root: no message can be made in them, and none over another slot's root
+	for x := sc.Start; x < sc.Start+uint64(3*period*spe); x++ {
+		if r1.Intn(12) == 0 {
+			w.rootFail[x] = true
+			sc.RootFails++
+		}
+	}
 	env.SyncSubscribeFail.Store(sc.SubRefused)
 	if err := env.Start(); err != nil {
 		c.Inconclusive("controller.New: " + err.Error())
@@ -261,6 +282,16 @@ func history(c *harness.Ctx, id string, r *rand.Rand) {
 		gotBy := map[uint64]*altair.SyncCommitteeMessage{}
 		for _, m := range got {
 			gotBy[uint64(m.ValidatorIndex)] = m
+		}
+		if w.rootFail[s] {
+			// no head root could be had in this slot
+			if len(got) > 0 {
+				fail("sync-message-without-head-root", fmt.Sprintf("slot %d: the node could not give its head root, yet %d message(s) were submitted (over the root of another slot)", s, len(got)))
+			}
+			if len(w.contribs[s]) > 0 {
+				c.Count("contributions_in_slots_without_root", int64(len(w.contribs[s])))
+			}
+			continue
 		}
 		class := "steady"
 		switch {
